@@ -142,7 +142,17 @@ class ResponseModel:
 
     def summary(self, p):
         ev = p.events
-        out = {"headers": [], "head": None, "copies": [], "encoders": [], "buffered": False, "enc_drops": [], "ok": p.end[0] == "return" and p.ret()[0] == "agg" and p.ret()[2] == "Ok"}
+        ok_ = False
+        if p.end[0] == "return":
+            r_ = p.ret()
+            if r_[0] == "agg":
+                ok_ = r_[2] == "Ok"
+            else:
+                # the function's answer is what its last write answered (`writer.write_all(&message)` as the tail expression): that can
+                # be success, unless the path saw that very call fail
+                hc_ = absint.head_call(r_)
+                ok_ = hc_ is not None and not any(c and c[0] == "variant" and c[2] in ("Err", "Break") and absint.mentions_call(c[3], hc_) for bb_, c in p.conds)
+        out = {"headers": [], "head": None, "copies": [], "encoders": [], "buffered": False, "enc_drops": [], "ok": ok_}
         for i, e in enumerate(ev):
             if e[1] == "call":
                 n = e[2]
@@ -167,6 +177,43 @@ class ResponseModel:
                     out["buffer_args"] = e[8] or e[3]
             elif e[1] == "drop" and "chunked_transfer::Encoder<" in (e[2] or ""):
                 out["enc_drops"].append(i)
+        # body bytes that reach the writer by another road than io::copy / the chunk encoder: read from the response's reader into a
+        # buffer of the function, and that buffer written to the output (a "fast path" that assembles the message in memory)
+        st0 = p.state
+        def canon0(k):
+            try:
+                k = st0.resolve_key(k)
+            except Exception:
+                pass
+            return tuple(y for y in k if y != "*")
+        def refkeys(args, depth=0, acc=None):
+            # the places the arguments refer to, directly or through a reference held in a local (`&*Deref::deref(&buf)`)
+            acc = set() if acc is None else acc
+            if depth > 5:
+                return acc
+            for a in args:
+                for x in absint.walk_terms(a):
+                    if isinstance(x, tuple) and len(x) == 2 and x[0] == "ref" and isinstance(x[1], tuple):
+                        k = canon0(x[1])
+                        if k not in acc:
+                            acc.add(k)
+                            if "*" in x[1]:
+                                try:
+                                    refkeys([st0.read_key(tuple(y for y in x[1] if y != "*"))], depth + 1, acc)
+                                except Exception:
+                                    pass
+            return acc
+        carry = set()
+        for i, e in enumerate(ev):
+            if e[1] != "call":
+                continue
+            deep_ = list(e[8] or e[3])
+            nm = (e[6] or "") + " " + e[2]
+            if re.search(r"Read::read\w*|Read>::read\w*|std::io::copy", nm) and any(absint.contains(a, BODY) for a in deep_):
+                carry |= {k for k in refkeys(e[3]) if k and k[0] != 1}
+            elif re.search(r"Write::write(_all)?\b|Write>::write(_all)?$", nm) and deep_ and absint.contains(deep_[0], OUT) and (refkeys(e[3][1:]) & carry):
+                out["copies"].append((i, deep_))
+                out["assembled"] = True
         # a header that was built counts only if it is handed to the head writer: it occurs in what the head writer is given (a list or
         # iterator expression built from it), or it was appended to a list the head writer is given a view of
         if out["head"] is not None:
